@@ -209,6 +209,26 @@ func c11Roundtrip(c c11Case) *vstat.Violation {
 		if v := samePriv("proto-priv", g, err); v != nil {
 			return v
 		}
+		// a decoded key owns its bytes: the caller may reuse or wipe the buffer it decoded from
+		for i := range b {
+			b[i] ^= 0xa5
+		}
+		if v := samePriv("proto-priv/after-the-input-buffer-was-reused", g, nil); v != nil {
+			return v
+		}
+		// ... and what the private key's Raw() hands out is a copy (it says so: "buf := make"): wiping it does not touch
+		// the key. (The public key's Raw() returns its own slice, as in libp2p; that is left alone.)
+		if rb, rerr := g.Raw(); rerr == nil {
+			for i := range rb {
+				rb[i] = 0
+			}
+		}
+		if v := samePriv("proto-priv/after-Raw()-result-was-wiped", g, nil); v != nil {
+			return v
+		}
+		if sig, serr := g.Sign([]byte("probe")); serr != nil || !ed25519.Verify(gen.StdKeyFromSeed(c.Seed).Public().(ed25519.PublicKey), []byte("probe"), sig) {
+			return vstat.Viol("roundtrip/proto-priv", "the decoded key no longer signs as the original key (err=%v)", serr)
+		}
 		pb, err := crypto.MarshalPublicKey(pub)
 		if err != nil {
 			return vstat.Viol("marshal", "%v", err)
@@ -216,6 +236,35 @@ func c11Roundtrip(c c11Case) *vstat.Violation {
 		gp, err := crypto.UnmarshalPublicKey(pb)
 		if v := samePub("proto-pub", gp, err); v != nil {
 			return v
+		}
+		for i := range pb {
+			pb[i] ^= 0xa5
+		}
+		if v := samePub("proto-pub/after-the-input-buffer-was-reused", gp, nil); v != nil {
+			return v
+		}
+		// the legacy 96-byte private form (key followed by a redundant copy of the public half) yields the same key,
+		// whose public half is an ordinary 32-byte key that survives its own encoding
+		if raw, rerr := k.Raw(); rerr == nil {
+			pr, _ := pub.Raw()
+			legacy := append(append([]byte{}, raw...), pr...)
+			lk, lerr := crypto.UnmarshalEd25519PrivateKey(legacy)
+			if v := samePriv("legacy-96", lk, lerr); v != nil {
+				return v
+			}
+			lraw, _ := lk.Raw()
+			lpr, _ := lk.GetPublic().Raw()
+			if len(lraw) != 64 || len(lpr) != 32 {
+				return vstat.Viol("roundtrip/legacy-96", "key decoded from the 96-byte form has %d raw bytes and a %d-byte public key", len(lraw), len(lpr))
+			}
+			lpb, merr := crypto.MarshalPublicKey(lk.GetPublic())
+			if merr != nil {
+				return vstat.Viol("roundtrip/legacy-96", "MarshalPublicKey of its public half: %v", merr)
+			}
+			lgp, uerr := crypto.UnmarshalPublicKey(lpb)
+			if v := samePub("legacy-96-public-half", lgp, uerr); v != nil {
+				return v
+			}
 		}
 		pp, err := crypto.PublicKeyToProto(pub)
 		if err != nil {
